@@ -46,7 +46,7 @@ MECHANISMS = [
     ('TotalDepth.LIS.LisToHtml', 'LisToHtml.processFile'),
 ]
 REQUIRED_MONITORS = ['tree_parses', 'tree_equals_model', 'contract:XmlStream.stacks', 'contract:XmlStream.exit', 'index_xml_parses',
-                     'index_entries', 'index_rle_expansion', 'index_strings_recovered', 'html_rp66v1_parses', 'html_las_parses',
+                     'index_entries', 'index_rle_expansion', 'index_strings_recovered', 'index_cell_values_recovered', 'html_rp66v1_parses', 'html_las_parses',
                      'html_lis_parses', 'svg_parses']
 MIN_NONTRIVIAL = {'quick': 5000, 'thorough': 600000}
 TIMEOUT_S = {'quick': 400, 'thorough': 3300}
@@ -638,7 +638,9 @@ def rp66_documents(ctx, src, k, cap):
                                     'lrsh': [r.logical_record_position.lrsh_position for r in refs], 'x': [r.x_axis.item() if hasattr(r.x_axis, 'item') else r.x_axis for r in refs],
                                     'x_single': any(type(r.x_axis).__name__ == 'float32' for r in refs),
                                     'channels': len(fa.channels)})
-                mem['lfs'].append({'eflrs': [(e.eflr.set.type, len(e.eflr.objects)) for e in lf.eflrs], 'fas': fas})
+                # the byte-string cells of every table, in document order: [[per object [(label, [bytes values])]] per table]
+                cells = [[[(a.label, [v for v in (a.value or []) if isinstance(v, bytes)]) for a in o.attrs] for o in e.eflr.objects] for e in lf.eflrs]
+                mem['lfs'].append({'eflrs': [(e.eflr.set.type, len(e.eflr.objects)) for e in lf.eflrs], 'fas': fas, 'cells': cells})
     except Exception as e:  # noqa
         raised = e
         rec.cls('writer-raised:IndexXML:' + type(e).__name__)
@@ -686,6 +688,26 @@ def check_index(rec, root, mem, model, cap, wit):
         if got != exp_mem:
             bad = 'logical file %d: EFLR entries %r, in-memory tables %r' % (i, got[:8], exp_mem[:8])
             break
+        # every byte-string value of every table cell is in the index as <Value type="bytes" value="...">: the bytes of the file, one
+        # character per byte, recovered unchanged when XML can represent them
+        for e, tcells in zip(eflrs, mm.get('cells') or []):
+            objs = [o for o in e if localname(o.tag) == 'Object']
+            if len(objs) != len(tcells):
+                continue            # private tables written without their objects, or a count mismatch reported below
+            for o, ocells in zip(objs, tcells):
+                attrs_x = [a for a in o if localname(a.tag) == 'Attribute']
+                if len(attrs_x) != len(ocells):
+                    continue
+                for a, (label, vals) in zip(attrs_x, ocells):
+                    got_v = [v.get('value') for v in a if localname(v.tag) == 'Value' and v.get('type') == 'bytes']
+                    want_v = [b.decode('latin-1') for b in vals]
+                    if not all(representable(v) for v in want_v):
+                        continue
+                    rec.mon('index_cell_values_recovered')
+                    if got_v != want_v and cap['n'] < 20:
+                        cap['n'] += 1
+                        rec.violation('index_cell_values_recovered', 'value-changed', 'table %s: cell %r recovered from the XML index as %r, the in-memory table holds the bytes %r' % (
+                            e.get('set_type'), label, got_v[:4], vals[:4]), dict(wit, label=repr(label), recovered=got_v[:8], held=[repr(b) for b in vals[:8]]))
         if model is not None:
             exp = [(t.set_type.decode('latin-1'), len(t.objects)) for t in model.logical_files[i].tables]
             if got != exp:
